@@ -735,13 +735,13 @@ def run(ctx, res):
     unsound = ["%s.%s" % (r[0], r[1]) for r, s in zip(rows, snd) if s != "1"]
     res.extra["unsound_rows"] = unsound
     mark("table checks")
-    run_straight(ctx, res, drv, meta, 2500 if thorough else 250)
+    run_straight(ctx, res, drv, meta, 2500 if thorough else 600)
     mark("straight-line correspondence")
     if thorough:
         for _ in range(6):
             run_e2e(ctx, res, 300)
     else:
-        run_e2e(ctx, res, 90)
+        run_e2e(ctx, res, 180)
     mark("end-to-end programs")
 
 
